@@ -11,6 +11,7 @@ from .. import env
 from ..ref import isa, sigmsg
 
 ID = 'C15'
+BUILDER_DEFAULTS = True     # tools.* goes through tsverif/omit.py
 RULE = ('scenarios = receiver / refund / outsider seeds x preimage length '
         '1..64 x digest size x timeout {0,1,60,86400,10^6} x t in {deadline-1, '
         'deadline, deadline+1} x now in {t-61, t-60, t-59, t, t+10^6} x tweak '
